@@ -39,8 +39,8 @@ func c16Spec(tier string) *HSpec {
 	}
 	spec := &HSpec{Prop: "C16", Name: "C16", Depth: depth,
 		Obs: ObsSpec{
-			Hosts: []string{"a.example.com", "a.example.com:80", "a.example.com:8443", "b.example.com", "x.example.com", "other.org"},
-			Paths: []string{"/", "/api/x?a=1&b=%2F", "//evil.example/x", "/a%2Fb?x=;y", "/api/v2/z"},
+			Hosts:   []string{"a.example.com", "a.example.com:80", "a.example.com:8443", "b.example.com", "x.example.com", "other.org"},
+			Paths:   []string{"/", "/api/x?a=1&b=%2F", "//evil.example/x", "/a%2Fb?x=;y", "/api/v2/z"},
 			Cookies: []string{""}, TLS: []bool{false, true}},
 		Clauses: map[string]bool{"routing": true, "tls-policy": true, "tls-policy subpath-multihost-follows-first-host": true, "gate": true, "target-set": true, "list": true},
 	}
